@@ -11,7 +11,8 @@ CT = W.CTYPE
 class Probe:
     def __init__(self, name, params, result, body, spec=None, trap=None, locals_=(), requires=(),
                  post=(), solver="sat", globals_used=(), pre_stmts=(), funcs=(), flags=(), bounded=None,
-                 timeout=None, wasm_desc=""):
+                 timeout=None, wasm_desc="", eq="bits"):
+        self.eq = eq
         self.name = name            # alnum only
         self.params = list(params)  # wasm value types
         self.result = result        # wasm value type or None
@@ -28,6 +29,15 @@ class Probe:
         self.bounded = bounded
         self.timeout = timeout
         self.wasm_desc = wasm_desc
+
+
+def feq(t, a, b):
+    """NaN where the spec yields NaN, bit-identical otherwise"""
+    if t == W.F32:
+        return "SPEC_FEQ32(%s, %s)" % (a, b)
+    if t == W.F64:
+        return "SPEC_FEQ64(%s, %s)" % (a, b)
+    return "((%s) == (%s))" % (a, b)
 
 
 def bits_eq(t, a, b):
@@ -51,10 +61,22 @@ class ProbeModule:
         if memory:
             self.m.memory(*memory)
 
-    def add(self, p):
+    def add(self, p, split_nan=False):
         assert re.match(r"^[A-Za-z0-9]+$", p.name), p.name
         self.m.func(p.params, [p.result] if p.result is not None else [], p.body, locals_=p.locals, export=p.name)
-        self.probes.append(p)
+        p.func_name = p.name
+        if split_nan and p.eq == "feq" and p.result in (W.F32, W.F64):
+            # two harnesses for the same generated function: non-NaN case and NaN case (solver tractability)
+            import copy
+            n = "32" if p.result == W.F32 else "64"
+            nanexpr = "spec_isnan%s(spec_f%s_bits(%s))" % (n, n, p.spec)
+            pv, pn = copy.copy(p), copy.copy(p)
+            pv.name, pn.name = p.name + "v", p.name + "n"
+            pv.requires = list(p.requires) + ["!" + nanexpr]
+            pn.requires = list(p.requires) + [nanexpr]
+            self.probes += [pv, pn]
+        else:
+            self.probes.append(p)
 
     def harness_text(self, spec_includes):
         mod = self.modname
@@ -75,11 +97,17 @@ class ProbeModule:
                 out.append("  ASSUME(%s);" % rq)
             out.append("  g_spec_trap = %s;" % (p.trap or "SPEC_NOTRAP"))
             args = "".join(", a%d" % i for i in range(len(p.params)))
-            call = "%s_%s(&inst%s)" % (mod, p.name, args)
+            call = "%s_%s(&inst%s)" % (mod, getattr(p, "func_name", p.name), args)
             out.append("  %s%s;" % ("r = " if p.result is not None else "", call))
             out.append('  OBL(g_spec_trap == SPEC_NOTRAP, "%s: returned normally only if the specification does not trap");' % p.name)
             if p.spec is not None:
-                out.append('  OBL(%s, "%s: result equals the specified value");' % (bits_eq(p.result, "r", p.spec), p.name))
+                if p.eq == "feq" and p.result in (W.F32, W.F64):
+                    n = "32" if p.result == W.F32 else "64"
+                    out.append("  { %s s_ = %s;" % (CT[p.result], p.spec))
+                    out.append('  OBL(spec_isnan%s(spec_f%s_bits(s_)) || spec_f%s_bits(r) == spec_f%s_bits(s_), "%s: a non-NaN specified result is delivered bit-exactly");' % (n, n, n, n, p.name))
+                    out.append('  OBL(!spec_isnan%s(spec_f%s_bits(s_)) || spec_isnan%s(spec_f%s_bits(r)), "%s: the result is a NaN where the specification yields a NaN"); }' % (n, n, n, n, p.name))
+                else:
+                    out.append('  OBL(%s, "%s: result equals the specified value");' % (bits_eq(p.result, "r", p.spec), p.name))
             for ce, nm in p.post:
                 out.append('  OBL(%s, "%s: %s");' % (ce, p.name, nm))
             out.append('  CANARY("%s returns");' % p.name)
@@ -114,7 +142,7 @@ def lg(i):
 
 
 def operator_contexts(base, op_instr, ptypes, rtype, spec_fn, trap_fn=None, solver="sat", contexts=(0, 1, 2), gmap=None,
-                      wasm_name=""):
+                      wasm_name="", eq="bits", libm=None, extra_post=(), timeout=None):
     """Three stack contexts for one operator:
        c0: operands at height 0;
        c1: under two values of other types (i64/f32 or i32/f64) that must survive (checked via globals);
@@ -123,12 +151,22 @@ def operator_contexts(base, op_instr, ptypes, rtype, spec_fn, trap_fn=None, solv
     n = len(ptypes)
     res = []
     aargs = ", ".join("a%d" % i for i in range(n))
-    spec = "%s(%s)" % (spec_fn, aargs)
+    spec = "%s(%s)" % (spec_fn, aargs) if spec_fn else None
     trap = "%s(%s)" % (trap_fn, aargs) if trap_fn else None
+    fbits = {W.F32: "vh_f32bits", W.F64: "vh_f64bits", W.I32: "", W.I64: ""}
+    lpost = list(extra_post)
+    pre = ["g_libm_calls = 0;"]
+    if libm:
+        b = ["%s(a%d)" % (fbits[ptypes[i]], i) for i in range(n)] + ["0"]
+        lpost.append(("LIBM_USED_EXACTLY(%s, %s, %s, LRET)" % (libm, b[0], b[1]),
+                      "exactly one call of the specified libm function on the operands' bits, result passed on bit-identically"))
+    else:
+        lpost.append(("g_libm_calls == 0", "no library call is involved"))
     opb = op_instr if isinstance(op_instr, (bytes, bytearray)) else W.ins(op_instr)
     if 0 in contexts:
         body = b"".join(W.ins("local.get", i) for i in range(n)) + opb
-        res.append(Probe(base + "c0", ptypes, rtype, body, spec=spec, trap=trap, solver=solver,
+        res.append(Probe(base + "c0", ptypes, rtype, body, spec=spec, trap=trap, solver=solver, eq=eq, pre_stmts=pre, timeout=timeout,
+                         post=[(c.replace("LRET", "%s(r)" % fbits[rtype]), nm) for c, nm in lpost],
                          wasm_desc="(%s (local.get 0..%d))" % (wasm_name, n - 1)))
     if 1 in contexts:
         # extra values below: e0 (I64 unless an operand is i64-only.. always mixed), e1 (F32)
@@ -140,15 +178,17 @@ def operator_contexts(base, op_instr, ptypes, rtype, spec_fn, trap_fn=None, solv
             W.ins("local.set", tmp) + W.ins("global.set", gmap[e1t]) + W.ins("global.set", gmap[e0t]) + W.ins("local.get", tmp)
         post = [(bits_eq(e0t, "inst.g%d" % gmap[e0t], "a%d" % n), "value two below the operands survives"),
                 (bits_eq(e1t, "inst.g%d" % gmap[e1t], "a%d" % (n + 1)), "value directly below the operands survives")]
-        res.append(Probe(base + "c1", params, rtype, body, spec=spec, trap=trap, locals_=[(1, rtype)], post=post,
-                         solver=solver, wasm_desc="e0 e1 (%s ..) local.set; global.set; global.set" % wasm_name))
+        post += [(c.replace("LRET", "%s(r)" % fbits[rtype]), nm) for c, nm in lpost]
+        res.append(Probe(base + "c1", params, rtype, body, spec=spec, trap=trap, locals_=[(1, rtype)], post=post, eq=eq, pre_stmts=pre,
+                         solver=solver, timeout=timeout, wasm_desc="e0 e1 (%s ..) local.set; global.set; global.set" % wasm_name))
     if 2 in contexts:
         if rtype in (W.I32, W.I64):
             params = list(ptypes) + [rtype]
             xor = "i32.xor" if rtype == W.I32 else "i64.xor"
             body = W.ins("local.get", n) + b"".join(W.ins("local.get", i) for i in range(n)) + opb + W.ins(xor)
             spec2 = "(a%d ^ %s)" % (n, spec)
-            res.append(Probe(base + "c2", params, rtype, body, spec=spec2, trap=trap, solver=solver,
+            res.append(Probe(base + "c2", params, rtype, body, spec=spec2, trap=trap, solver=solver, pre_stmts=pre, timeout=timeout,
+                             post=[(c, nm) for c, nm in lpost if "LRET" not in c],
                              wasm_desc="(xor c (%s ..))" % wasm_name))
         else:
             it = W.I32 if rtype == W.F32 else W.I64
@@ -157,7 +197,14 @@ def operator_contexts(base, op_instr, ptypes, rtype, spec_fn, trap_fn=None, solv
             xor = "i32.xor" if it == W.I32 else "i64.xor"
             body = W.ins("local.get", n) + b"".join(W.ins("local.get", i) for i in range(n)) + opb + W.ins(rein) + W.ins(xor)
             fb = "vh_f32bits" if rtype == W.F32 else "vh_f64bits"
-            spec2 = "(a%d ^ %s(%s))" % (n, fb, spec)
-            res.append(Probe(base + "c2", params, it, body, spec=spec2, trap=trap, solver=solver,
+            if libm:
+                spec2 = "(a%d ^ g_libm_ret)" % n
+                req = []
+                lp = [(c.replace("LRET", "g_libm_ret"), nm) for c, nm in lpost]
+            else:
+                spec2 = "(a%d ^ %s(%s))" % (n, fb, spec)
+                req = ["!%s(%s(%s))" % ("spec_isnan32" if rtype == W.F32 else "spec_isnan64", fb, spec)] if eq == "feq" else []
+                lp = lpost
+            res.append(Probe(base + "c2", params, it, body, spec=spec2, trap=trap, solver=solver, pre_stmts=pre, post=lp, requires=req, timeout=timeout,
                              wasm_desc="(xor c (reinterpret (%s ..)))" % wasm_name))
     return res
